@@ -20,3 +20,11 @@ print(len(idx), "mutants;", sum(1 for v in idx.values() if v["detected_by"]), "d
 for k, v in sorted(idx.items()):
     if not v["detected_by"]:
         print("  undetected:", k, v["status"])
+# keep the per-change records in step with what was measured
+for k, v in idx.items():
+    if k.startswith("seeded/") and v["status"] == "OK":
+        mp = os.path.join(VERIF, os.path.dirname(k), "meta.json")
+        if os.path.exists(mp):
+            m = json.load(open(mp))
+            m["detected_by_checks"] = v["detected_by"]
+            json.dump(m, open(mp, "w"), indent=1)
